@@ -647,18 +647,17 @@ theorem C03_match_instrumented_same (recurse : Ctx → Nat → M (Ctx × Bool)) 
    applyContextRule_eq recurse c input mf lookups, applyChainRule_eq recurse c nBack nIn nAhead fBack fIn fAhead lookups⟩
 
 /-- **INSPECTED ⊆ SPAN for the three matchers**, success and failure alike, every font / lookup / buffer:
-    * match_input: every in-buffer glyph read lies in `[idx, len)`, and below `end_position` unless the matcher returned through
-      one of the ligature-component `return false` (`why = ligComp`: `end_position` is never written and stays 0 — see
-      `known_C04_ligcomp_fail_unflagged` in Props/C04.lean); `end_position ∈ (idx, len]` on success and on an iterator failure;
+    * match_input: every in-buffer glyph read lies in `[idx, end_position)`, `end_position ∈ (idx, len]`, on every path that
+      read anything — success, iterator failure and (since the repair "fix: match_input left end_position unset …"; before it
+      `end_position` stayed 0 there, see `C04_ligcomp_fail_flagged` in Props/C04.lean) the ligature-component `return false`;
       out-buffer glyphs are read by the lig-base scan only (`Rd.lig`);
     * match_lookahead from `s`: reads lie in `[s, end_index)`, `s ≤ end_index ≤ len`;
     * match_backtrack: reads lie in `[match_start, backtrack_len)` of the out-buffer. -/
 theorem C03_match_reads_in_span (c : Ctx) (n : Nat) (fn : Nat → Nat → Bool) (hidx : c.buf.idx < c.buf.len) :
     (∀ p R, matchInputI c n fn p = .ok R →
       (R.r.ok = true ↔ R.why = .matched) ∧ (R.why = .tooLong → R.reads = [] ∧ R.r.endPos = 0) ∧
-      (R.why = .ligComp → R.r.endPos = 0) ∧
-      (R.why = .matched ∨ R.why = .iter → c.buf.idx < R.r.endPos ∧ R.r.endPos ≤ c.buf.len) ∧
-      (∀ i, Rd.inp i ∈ R.reads → c.buf.idx ≤ i ∧ i < c.buf.len ∧ (R.why ≠ .ligComp → i < R.r.endPos)) ∧
+      (R.why ≠ .tooLong → c.buf.idx < R.r.endPos ∧ R.r.endPos ≤ c.buf.len) ∧
+      (∀ i, Rd.inp i ∈ R.reads → c.buf.idx ≤ i ∧ i < c.buf.len ∧ i < R.r.endPos) ∧
       (∀ j, Rd.out j ∉ R.reads) ∧ (∀ j, Rd.lig j ∈ R.reads → j < c.buf.outLen)) ∧
     (∀ s ok e rs, matchLookaheadI c n fn s = .ok ((ok, e), rs) → s ≤ c.buf.len →
       s ≤ e ∧ e ≤ c.buf.len ∧ ∀ i ∈ rs, s ≤ i ∧ i < e) ∧
@@ -666,8 +665,8 @@ theorem C03_match_reads_in_span (c : Ctx) (n : Nat) (fn : Nat → Nat → Bool) 
       st ≤ backtrackLen c.buf ∧ ∀ j ∈ rs, st ≤ j ∧ j < backtrackLen c.buf) := by
   refine ⟨?_, ?_, ?_⟩
   · intro p R hR
-    obtain ⟨r1, r2, r3, r4, r5⟩ := matchInputI_span c n fn p R hR hidx
-    refine ⟨r1, r2, r3, r4, ?_, ?_, ?_⟩
+    obtain ⟨r1, r2, r4, r5⟩ := matchInputI_span c n fn p R hR hidx
+    refine ⟨r1, r2, r4, ?_, ?_, ?_⟩
     · intro i hi
       rcases r5 _ hi with ⟨i', a1, a2, a3, a4⟩ | ⟨j, a1, _⟩
       · cases a1; exact ⟨a2, a3, a4⟩
@@ -692,14 +691,69 @@ example : matchLookaheadI spanCtx 1 (fun g _ => g == 3) 4 = .ok ((true, 5), [4])
 example : matchBacktrackI spanCtx 1 (fun g _ => g == 5) = .ok ((true, 0), [0]) := by rfl
 example : spanCtx.buf.idx < spanCtx.buf.len := by decide
 
-/-- **a context rule that matched flagged everything it inspected** (`apply_context`, Context formats 1 and 2; format 3 is the
-    same code inline).  When the rule returns `(c', true)`: match_input succeeded with reads `R.reads`, the flag call was
-    `unsafe_to_break(idx, end_position)` on the buffer the rule found, the nested lookups ran on the flagged buffer `b`, and
-    every in-buffer glyph the matcher read — skipped glyphs and the last matched glyph included — lies in `[idx, end_position)`
-    and in `b` either belongs to the minimum cluster `m` of that range or carries UNSAFE_TO_BREAK (`BreakFlagged`: it is the old
-    glyph with `mask |= BREAK | CONCAT` iff its cluster differs from `m`).  Monotone clusters over `[idx, len)` (the level
-    `C03_interior` allows), all three cluster levels.  The backward iterator is not used (`Rd.out` never occurs); the lig-base
-    scan's out-buffer reads are outside the span (see the section comment). -/
+/-- **a context rule that matched flagged everything it inspected — the common form of Context formats 1, 2 and 3**: the rule
+    is "match_input with the match function `fn` over `n` further glyphs, then `contextFinish`" (`C03_match_instrumented_same` /
+    `C03_context3_instrumented_same` are the equations with the model's rules).  When it returns `(c', true)`: match_input
+    succeeded with reads `R.reads`, the flag call was `unsafe_to_break(idx, end_position)` on the buffer the rule found, the nested
+    lookups ran on the flagged buffer `b`, and every in-buffer glyph the matcher read — skipped glyphs and the last matched glyph
+    included — lies in `[idx, end_position)` and in `b` either belongs to the minimum cluster `m` of that range or carries
+    UNSAFE_TO_BREAK (`BreakFlagged`: it is the old glyph with `mask |= BREAK | CONCAT` iff its cluster differs from `m`).
+    Monotone clusters over `[idx, len)` (the level `C03_interior` allows), all three cluster levels.  The backward iterator is
+    not used (`Rd.out` never occurs); the lig-base scan's out-buffer reads are outside the span (see the section comment). -/
+theorem C03_contextI_match_flags_inspected (recurse : Ctx → Nat → M (Ctx × Bool)) (c c' : Ctx) (n : Nat)
+    (fn : Nat → Nat → Bool) (lookups : List Rec)
+    (h : (matchInputI c n fn [0, 0, 0, 0] >>= contextFinish recurse c n lookups) = .ok (c', true))
+    (hidx : c.buf.idx < c.buf.len) (hlen : c.buf.len ≤ c.buf.info.length)
+    (hu32 : ∀ j x, c.buf.idx ≤ j → j < c.buf.len → c.buf.info[j]? = some x → x.cluster ≤ U32MAX)
+    (hmono : MonoRange c.buf.info c.buf.idx c.buf.len) :
+    ∃ (R : MatchInI) (b : Buf) (m : Nat),
+      matchInputI c n fn [0, 0, 0, 0] = .ok R ∧ R.r.ok = true ∧
+      c.buf.idx < R.r.endPos ∧ R.r.endPos ≤ c.buf.len ∧
+      c.buf.unsafeToBreak c.buf.idx (some R.r.endPos) = .ok b ∧
+      applyLookup recurse { c with buf := b } n R.r.positions R.r.endPos lookups = .ok c' ∧
+      IsRangeMin c.buf.info c.buf.idx R.r.endPos m ∧
+      (∀ i, Rd.inp i ∈ R.reads → c.buf.idx ≤ i ∧ i < R.r.endPos ∧
+          ∃ x, c.buf.info[i]? = some x ∧ BreakFlagged b.info i x m) ∧
+      (∀ j, Rd.out j ∉ R.reads) ∧ (∀ j, Rd.lig j ∈ R.reads → j < c.buf.outLen) := by
+  cases hR : matchInputI c n fn [0, 0, 0, 0] with
+  | error e => simp only [hR, bind, Except.bind] at h; cases h
+  | ok R =>
+    simp only [hR, bind, Except.bind, contextFinish] at h
+    cases hok : R.r.ok with
+    | false =>
+      simp only [hok, Bool.false_eq_true, if_false] at h
+      cases hb : c.buf.unsafeToConcat c.buf.idx (some R.r.endPos) with
+      | error e => simp [hb] at h
+      | ok b => simp [hb, pure, Except.pure] at h
+    | true =>
+      obtain ⟨r1, _, r4, r5⟩ := matchInputI_span c _ _ _ R hR hidx
+      have hwm := r1.mp hok
+      obtain ⟨q1, q2⟩ := r4 (by simp [hwm])
+      obtain ⟨b, m, hb, hmin, hupd, _⟩ := C03_interior c.buf c.buf.idx R.r.endPos q1 q2 hlen
+        (fun j x a1 a2 a3 => hu32 j x a1 (by omega) a3) (MonoRange.shrink hmono q2)
+      simp only [hok, if_true, hb] at h
+      cases hal : applyLookup recurse { c with buf := b } n R.r.positions R.r.endPos lookups with
+      | error e => simp [hal] at h
+      | ok c2 =>
+        simp only [hal, pure, Except.pure, Except.ok.injEq, Prod.mk.injEq, and_true] at h
+        subst h
+        refine ⟨R, b, m, rfl, hok, q1, q2, hb, hal, hmin, ?_, ?_, ?_⟩
+        · intro i hi
+          rcases r5 _ hi with ⟨i', a1, a2, a3, a4⟩ | ⟨j, a1, _⟩
+          · cases a1
+            have hil : i < c.buf.info.length := by omega
+            exact ⟨a2, a4, _, List.getElem?_eq_getElem hil,
+              BreakFlagged.of_upd hupd (List.getElem?_eq_getElem hil) a2 a4⟩
+          · cases a1
+        · intro j hj
+          rcases r5 _ hj with ⟨i', a1, _⟩ | ⟨j', a1, _⟩ <;> cases a1
+        · intro j hj
+          rcases r5 _ hj with ⟨i', a1, _⟩ | ⟨j', a1, a2⟩
+          · cases a1
+          · cases a1; exact a2
+
+/-- **a context rule that matched flagged everything it inspected** (`apply_context`, Context formats 1 and 2): the instance
+    of `C03_contextI_match_flags_inspected` for `applyContextRule`. -/
 theorem C03_context_match_flags_inspected (recurse : Ctx → Nat → M (Ctx × Bool)) (c c' : Ctx) (input : List Nat)
     (matchFn : Nat → Nat → Bool) (lookups : List Rec)
     (h : applyContextRule recurse c input matchFn lookups = .ok (c', true))
@@ -716,43 +770,48 @@ theorem C03_context_match_flags_inspected (recurse : Ctx → Nat → M (Ctx × B
           ∃ x, c.buf.info[i]? = some x ∧ BreakFlagged b.info i x m) ∧
       (∀ j, Rd.out j ∉ R.reads) ∧ (∀ j, Rd.lig j ∈ R.reads → j < c.buf.outLen) := by
   rw [applyContextRule_eq] at h
-  cases hR : matchInputI c input.length (fun g i => matchFn g (input.getD i 0)) [0, 0, 0, 0] with
-  | error e => simp only [hR, bind, Except.bind] at h; cases h
-  | ok R =>
-    simp only [hR, bind, Except.bind, contextFinish] at h
-    cases hok : R.r.ok with
-    | false =>
-      simp only [hok, Bool.false_eq_true, if_false] at h
-      cases hb : c.buf.unsafeToConcat c.buf.idx (some R.r.endPos) with
-      | error e => simp [hb] at h
-      | ok b => simp [hb, pure, Except.pure] at h
-    | true =>
-      obtain ⟨r1, _, _, r4, r5⟩ := matchInputI_span c _ _ _ R hR hidx
-      have hwm := r1.mp hok
-      obtain ⟨q1, q2⟩ := r4 (Or.inl hwm)
-      obtain ⟨b, m, hb, hmin, hupd, _⟩ := C03_interior c.buf c.buf.idx R.r.endPos q1 q2 hlen
-        (fun j x a1 a2 a3 => hu32 j x a1 (by omega) a3) (MonoRange.shrink hmono q2)
-      simp only [hok, if_true, hb] at h
-      cases hal : applyLookup recurse { c with buf := b } input.length R.r.positions R.r.endPos lookups with
-      | error e => simp [hal] at h
-      | ok c2 =>
-        simp only [hal, pure, Except.pure, Except.ok.injEq, Prod.mk.injEq, and_true] at h
-        subst h
-        refine ⟨R, b, m, rfl, hok, q1, q2, hb, hal, hmin, ?_, ?_, ?_⟩
-        · intro i hi
-          rcases r5 _ hi with ⟨i', a1, a2, a3, a4⟩ | ⟨j, a1, _⟩
-          · cases a1
-            have hlt := a4 (by simp [hwm])
-            have hil : i < c.buf.info.length := by omega
-            exact ⟨a2, hlt, _, List.getElem?_eq_getElem hil,
-              BreakFlagged.of_upd hupd (List.getElem?_eq_getElem hil) a2 hlt⟩
-          · cases a1
-        · intro j hj
-          rcases r5 _ hj with ⟨i', a1, _⟩ | ⟨j', a1, _⟩ <;> cases a1
-        · intro j hj
-          rcases r5 _ hj with ⟨i', a1, _⟩ | ⟨j', a1, a2⟩
-          · cases a1
-          · cases a1; exact a2
+  exact C03_contextI_match_flags_inspected recurse c c' _ _ lookups h hidx hlen hu32 hmono
+
+/-- **Context format 3 is the same rule**: `applySubtable (.context3 (cov :: rest) lookups)` is the coverage test of the current
+    glyph followed by `matchInputI c rest.length (fun g i => nthCov rest i g) [0,0,0,0] >>= contextFinish …` — an equation. -/
+theorem C03_context3_instrumented_same (recurse : Ctx → Nat → M (Ctx × Bool)) (nf : Bool) (c : Ctx) (cov : Cov)
+    (restCovs : List Cov) (lookups : List Rec) :
+    applySubtable recurse nf c (.context3 (cov :: restCovs) lookups) = (do
+      let cur ← Mem.get c.buf.info c.buf.idx
+      match cov.index (cur.gid % 65536) with
+      | none => pure (c, false)
+      | some _ =>
+        matchInputI c restCovs.length (fun g i => nthCov restCovs i g) [0, 0, 0, 0] >>=
+          contextFinish recurse c restCovs.length lookups) :=
+  context3_eq recurse nf c cov restCovs lookups
+
+/-- **a Context format 3 subtable that applied flagged everything it inspected**: the instance of
+    `C03_contextI_match_flags_inspected` for the inline code of format 3 (through `C03_context3_instrumented_same`). -/
+theorem C03_context3_match_flags_inspected (recurse : Ctx → Nat → M (Ctx × Bool)) (nf : Bool) (c c' : Ctx) (cov : Cov)
+    (restCovs : List Cov) (lookups : List Rec)
+    (h : applySubtable recurse nf c (.context3 (cov :: restCovs) lookups) = .ok (c', true))
+    (hidx : c.buf.idx < c.buf.len) (hlen : c.buf.len ≤ c.buf.info.length)
+    (hu32 : ∀ j x, c.buf.idx ≤ j → j < c.buf.len → c.buf.info[j]? = some x → x.cluster ≤ U32MAX)
+    (hmono : MonoRange c.buf.info c.buf.idx c.buf.len) :
+    ∃ (R : MatchInI) (b : Buf) (m : Nat),
+      matchInputI c restCovs.length (fun g i => nthCov restCovs i g) [0, 0, 0, 0] = .ok R ∧ R.r.ok = true ∧
+      c.buf.idx < R.r.endPos ∧ R.r.endPos ≤ c.buf.len ∧
+      c.buf.unsafeToBreak c.buf.idx (some R.r.endPos) = .ok b ∧
+      applyLookup recurse { c with buf := b } restCovs.length R.r.positions R.r.endPos lookups = .ok c' ∧
+      IsRangeMin c.buf.info c.buf.idx R.r.endPos m ∧
+      (∀ i, Rd.inp i ∈ R.reads → c.buf.idx ≤ i ∧ i < R.r.endPos ∧
+          ∃ x, c.buf.info[i]? = some x ∧ BreakFlagged b.info i x m) ∧
+      (∀ j, Rd.out j ∉ R.reads) ∧ (∀ j, Rd.lig j ∈ R.reads → j < c.buf.outLen) := by
+  rw [context3_eq] at h
+  cases hg : Mem.get c.buf.info c.buf.idx with
+  | error e => simp only [hg, bind, Except.bind] at h; cases h
+  | ok cur =>
+    simp only [hg, bind, Except.bind] at h
+    cases hc : cov.index (cur.gid % 65536) with
+    | none => simp [hc, pure, Except.pure] at h
+    | some i =>
+      simp only [hc] at h
+      exact C03_contextI_match_flags_inspected recurse c c' _ _ lookups h hidx hlen hu32 hmono
 
 -- non-vacuity: the rule "1 (marks ignored) 2" on glyphs 5 | 1 mark 2 3: matched, reads = [1, 2, 3], the mark (cluster 2) and
 -- the glyph 2 (cluster 3) are flagged, the first glyph of the range (minimum cluster 1) is not
@@ -762,6 +821,10 @@ example : ∃ c', applyContextRule spanNoRecurse spanCtx [2] (fun g v => g == v)
     (∀ j x, spanCtx.buf.idx ≤ j → j < spanCtx.buf.len → spanCtx.buf.info[j]? = some x → x.cluster ≤ U32MAX) ∧
     MonoRange spanCtx.buf.info spanCtx.buf.idx spanCtx.buf.len :=
   ⟨_, rfl, rfl, by decide, by decide, fun j x _ _ hx => u32_of_all (by decide) j x hx, MonoRange.of_pairwise (by decide) _ _⟩
+
+-- non-vacuity of the format 3 instance: coverages [1] [2] (marks ignored) on the same buffer
+example : ∃ c', applySubtable spanNoRecurse true spanCtx (.context3 [[1], [2]] []) = .ok (c', true) ∧
+    c'.buf.info.map (·.mask) = [1, 1, 3, 3, 1] := ⟨_, rfl, rfl⟩
 
 /-- **a chain rule that matched flagged everything it inspected** (`apply_chain_context`, ChainContext formats 1-3), in the
     state every forward GSUB pass is in (`have_output`).  When the rule returns `(c', true)`: the matching phase `chainMatchI`
@@ -828,7 +891,7 @@ theorem C03_chain_match_flags_inspected (recurse : Ctx → Nat → M (Ctx × Boo
         · intro i hi
           rcases s7 _ hi with ⟨i', a1, a2, a3, a4⟩ | ⟨j, a1, _⟩ | ⟨j, a1, _⟩
           · cases a1
-            have hlt' := a4 (by simp [hv])
+            have hlt' := a4
             have hil : i < c.buf.info.length := by have := hwf.len_le; omega
             exact ⟨a2, hlt', _, List.getElem?_eq_getElem hil,
               BreakFlagged.of_eq (t1 i _ a2 hlt' (List.getElem?_eq_getElem hil))⟩
@@ -887,9 +950,9 @@ theorem C03_ligature_match_reads_merged (c c' : Ctx) (comps : List Nat) (lig : N
       | error e => simp [hb] at h
       | ok b => simp [hb, pure, Except.pure] at h
     | true =>
-      obtain ⟨r1, _, _, r4, r5⟩ := matchInputI_span c _ _ _ R hR hidx
+      obtain ⟨r1, _, r4, r5⟩ := matchInputI_span c _ _ _ R hR hidx
       have hwm := r1.mp hok
-      obtain ⟨q1, q2⟩ := r4 (Or.inl hwm)
+      obtain ⟨q1, q2⟩ := r4 (by simp [hwm])
       simp only [hok, Bool.not_true, Bool.false_eq_true, if_false] at h
       cases hl : ligateInput c (comps.length + 1) R.r.positions R.r.endPos R.r.totalComps lig with
       | error e => simp [hl] at h
@@ -899,7 +962,7 @@ theorem C03_ligature_match_reads_merged (c c' : Ctx) (comps : List Nat) (lig : N
         refine ⟨R, rfl, hok, q1, q2, hl, ?_, ?_, ?_⟩
         · intro i hi
           rcases r5 _ hi with ⟨i', a1, a2, a3, a4⟩ | ⟨j, a1, _⟩
-          · cases a1; exact ⟨a2, a4 (by simp [hwm])⟩
+          · cases a1; exact ⟨a2, a4⟩
           · cases a1
         · intro j hj
           rcases r5 _ hj with ⟨i', a1, _⟩ | ⟨j', a1, _⟩ <;> cases a1
